@@ -13,7 +13,8 @@ EXPLANATION = (
     "nothing, align_to and the align guard skip. C14.R3: geometry of the four dummy headers as read from the statics' "
     "MIR: upward pos = end + 16, downward end = pos + 16 (capacity -16), prev = next = None, both pointers inside the "
     "static itself; the CLAIMED/UNALLOCATED constants point at them. C14.R4: scopes opened through the guard are undone "
-    "(guard derefs to BumpScope, so C03.R2 applies). Not decided: that is_last is false for the dummy position for "
+    "(guard derefs to BumpScope, so C03.R2 applies). C14.R5: E::allocation (abort under the panicking API) reports a "
+    "handle's failure only after is_claimed() was false; otherwise E::claimed. Not decided: that is_last is false for the dummy position for "
     "every user pointer (argued from the provenance of statics, not computed).")
 
 
@@ -247,6 +248,40 @@ def r4_scopes_through_guard(ctx, P):
             ctx.inst(R, b.path, ok, f"returns {show(rv[0]) if rv else '?'}", where=b.where(), site="target")
 
 
+EB_TRAIT = "error_behavior::ErrorBehavior"
+
+
+def r5_claimed_is_not_alloc_failure(ctx, P):
+    R = "C14.R5"
+    ctx.rule(R, "a refused request on a claimed handle is reported as claimed (unwinding panic for the panicking API), never "
+                "as an allocation failure (alloc::handle_alloc_error aborts): every E::allocation(..) that reports the "
+                "failure of a call on a bump-allocator handle is control dependent on the false edge of is_claimed(); the "
+                "only other origin is the base allocator's refusal in NonDummyChunk::new")
+    n = nbase = 0
+    for b in P.fn_bodies():
+        sites = [(s, t) for s, t in b.calls() if t["f"].get("trait") == EB_TRAIT and t["f"].get("name") == "allocation"]
+        if not sites:
+            continue
+        te, fe = b.cond_edges(lambda e: True if (e[0] == "call" and e[1].split("::")[-1] == "is_claimed") else None)
+        for k, (s, t) in enumerate(sites):
+            if b.path.startswith("raw_bump::NonDummyChunk::<A, S>::new"):
+                ve = b.variant_edges(lambda e: e[0] == "call" and e[1].endswith("Allocator::allocate"))
+                ok = b.controlled_by(s, ve.get("Err", []), cleanup=False)
+                nbase += 1
+                ctx.inst(R, b.path, ok, "E::allocation reports the base allocator's refusal (Err edge of A::allocate)" if ok else
+                         "E::allocation in NonDummyChunk::new is not tied to the Err edge of the base allocator's allocate",
+                         where=b.where(s), site=f"base refusal #{k}")
+                continue
+            n += 1
+            ok = b.controlled_by(s, fe, cleanup=False)
+            ctx.inst(R, b.path, ok, "E::allocation is reached only after is_claimed() returned false" if ok else
+                     "a failed call on a bump-allocator handle is turned into E::allocation without asking is_claimed(): on a "
+                     "claimed handle the panicking API calls handle_alloc_error (process abort) instead of unwinding with "
+                     "'bump allocator is claimed'", where=b.where(s), site=f"E::allocation #{k}")
+    ctx.floor(R, "E::allocation sites reporting a handle's failure", n, 1)
+    ctx.floor(R, "E::allocation sites reporting the base allocator's refusal", nbase, 1)
+
+
 def run(ctx, progs):
     ctx.assume("rustc nightly's type checker and MIR construction (incl. const/static initialisers via mir_for_ctfe) are correct")
     for lab, P in progs:
@@ -256,4 +291,5 @@ def run(ctx, progs):
         r2_classifier_consumers(ctx, P, D)
         r3_dummy_geometry(ctx, P)
         r4_scopes_through_guard(ctx, P)
+        r5_claimed_is_not_alloc_failure(ctx, P)
     ctx.config = None
